@@ -100,6 +100,7 @@ type p1case struct {
 	Chain    string // B | C
 	TSS      bool
 	Packet   string // recv only: "" (an ordinary transfer) | "reverts" | "unknown-destination"
+	Proof    string // TSS-secured receive/ack only: "" (harness default) | "tss-address" (the public TSS address written into the proof field) | "empty"
 }
 
 func (c p1case) String() string {
@@ -107,7 +108,7 @@ func (c p1case) String() string {
 	for _, n := range []string{"r1", "r2", "u2"} {
 		rs = append(rs, fmt.Sprintf("%s:%v", n, []string(c.Registry[n])))
 	}
-	return fmt.Sprintf("registry{%s}%s signer=%s msg=%s(%s%s) tssClientForB=%v", strings.Join(rs, " "), c.Rereg, c.Signer, c.Kind, c.Chain, map[string]string{"": "", "reverts": ", callback reverts", "unknown-destination": ", unknown destination"}[c.Packet], c.TSS)
+	return fmt.Sprintf("registry{%s}%s signer=%s msg=%s(%s%s) tssClientForB=%v", strings.Join(rs, " "), c.Rereg, c.Signer, c.Kind, c.Chain, map[string]string{"": "", "reverts": ", callback reverts", "unknown-destination": ", unknown destination"}[c.Packet]+map[string]string{"": "", "tss-address": ", proof field = TSS address", "empty": ", empty proof field"}[c.Proof], c.TSS)
 }
 
 func register(c *world.Chain, ctx sdk.Context, relayer string, chains regEntry) {
@@ -190,14 +191,20 @@ func Part1(r *ev.Run, tier string) (evals, nontrivial int64) {
 						if kind == "recv" {
 							pkts = append(pkts, "reverts")
 						}
+						proofs := []string{""}
+						if tss && ch == "B" && kind != "upd" {
+							proofs = append(proofs, "tss-address", "empty")
+						}
 						for _, pk := range pkts {
-							c := p1case{Registry: rc.reg, Rereg: rc.note, Signer: signer, Kind: kind, Chain: ch, TSS: tss, Packet: pk}
-							evals++
-							if one(r, w, c) {
-								nontrivial++
-							}
-							if evals%397 == 1 {
-								r.Sample(c.String())
+							for _, pf := range proofs {
+								c := p1case{Registry: rc.reg, Rereg: rc.note, Signer: signer, Kind: kind, Chain: ch, TSS: tss, Packet: pk, Proof: pf}
+								evals++
+								if one(r, w, c) {
+									nontrivial++
+								}
+								if evals%397 == 1 {
+									r.Sample(c.String())
+								}
 							}
 						}
 					}
@@ -244,6 +251,18 @@ func one(r *ev.Run, w0 *relay.Sys, c p1case) bool {
 	case "ack":
 		m, _ := w.GenuineAck("A>"+c.Chain+"#1", c.Signer)
 		msg = m
+	}
+	if tssHere && c.Proof != "" {
+		pf := []byte(a.Accounts["u2"].Acc.String())
+		if c.Proof == "empty" {
+			pf = nil
+		}
+		switch m := msg.(type) {
+		case *packettypes.MsgRecvPacket:
+			m.ProofCommitment = pf
+		case *packettypes.MsgAcknowledgement:
+			m.ProofAcked = pf
+		}
 	}
 	reg := c.Registry[c.Signer]
 	authorised := true
